@@ -204,6 +204,12 @@ where
                                 );
                             }
 
+                            // Let the connections we've just kicked off be polled once before we
+                            // signal the shutdown: a connection that hasn't been polled yet is still
+                            // waiting to read its first bytes and would be cancelled on the spot,
+                            // dropping a request that had already been dispatched to this worker.
+                            tokio::task::yield_now().await;
+
                             #[cfg(pavex_verif)]
                             super::sim::preempt("worker:before-graceful");
                             // Wait for all live connections to be closed or for the timeout to expire.
